@@ -3,6 +3,7 @@ package main
 // C13 — StreamManager re-establishes exactly one working session after each loss.
 
 import (
+	"os"
 	"fmt"
 	"go/types"
 	"sort"
@@ -606,6 +607,9 @@ func runC13(w *World, r *Report, tier string) {
 			failed := pathAsserts(path, func(cv ssa.Value, truth bool) bool { return assertsNonNil(cv, truth, cc) })
 			nd := countOn(path, w.isCallTo("sync.WaitGroup.Done"))
 			nw := countOn(path, w.isCallTo("sync.WaitGroup.Wait"))
+			if os.Getenv("XDEBUG") == "4" {
+				fmt.Fprintf(os.Stderr, "Run path failed=%v nd=%d nw=%d len=%d end=%v last=%s\n", failed, nd, nw, len(path), end, w.ipos(path[len(path)-1]))
+			}
 			if failed && (nd != 1 || nw != 0) {
 				okRun = false
 			}
